@@ -246,6 +246,10 @@ def run_check(pid, mod, tier, seed):
     assumptions += list(getattr(mod, "NOT_COVERED", []))
     level = getattr(mod, "LEVEL", "proof")
 
+    if os.environ.get("PYVC_DEBUG"):
+        for o, r in refuted + undecided:
+            print(f"  DEBUG {r['verdict']} {o.unit.split(':')[-1]}/{o.name} path={o.path} backend={r['backend']} t={r['time_s']:.1f} q={r.get('qstats')} size={r.get('size')}")
+            print(f"        note={str(o.note)[:160]} detail={r['detail'][:160]}")
     # ---- verdict
     for kf, o, rep in known_hits:
         print(f"KNOWN-FINDING: property={pid} {kf.get('what', kf.get('id'))}")
